@@ -7,6 +7,8 @@ import hashlib, json, os, random, re, sys, time
 import vlib, gen, static_pipeline as sp
 
 MAP = json.dumps({"version": 3, "sources": ["orig.ts"], "names": [], "mappings": "AAAA;AACA;AACA"})
+# the two directories hold DIFFERENT maps behind the same relative reference
+MAP_B = json.dumps({"version": 3, "sources": ["other.ts"], "names": [], "mappings": "AAUA;AACA;AACA"})
 CFG = {
     "A": dict(sp.FULL_CFG, chainSourceMap=True, comments=True),
     # same source names as A, other hook names, random prefix (localVarPrefix omitted)
@@ -23,7 +25,7 @@ CODES = {
     "modmap": "function m(a, b) {\n  return `${a}` + b.substring(1);\n}" + REF,
 }
 READER = {"parent": "default", "files": {"/w/a/orig.js.map": {"kind": "ok", "content": MAP},
-                                         "/w/b/orig.js.map": {"kind": "ok", "content": MAP}}}
+                                         "/w/b/orig.js.map": {"kind": "ok", "content": MAP_B}}}
 PFX = re.compile(r"__datadog_([a-z]{6})_")
 
 
